@@ -436,7 +436,13 @@ pub fn ensure_binary() -> Result<String, String> {
     if unsafe { libc::flock(lock.as_raw_fd(), libc::LOCK_EX) } != 0 {
         return Err("flock failed".into());
     }
-    let stamp = format!("{}/.stamp-{}", BIN_DIR, unsafe { libc::getppid() });
+    // one build per check run: the stamp names the orchestrator process (pid + start time)
+    let ppid = unsafe { libc::getppid() };
+    let started = std::fs::read_to_string(format!("/proc/{}/stat", ppid))
+        .ok()
+        .and_then(|t| t.rsplit(')').next().map(|r| r.split_whitespace().nth(19).unwrap_or("0").to_string()))
+        .unwrap_or_else(|| "0".into());
+    let stamp = format!("{}/.stamp-{}-{}", BIN_DIR, ppid, started);
     let res = if std::path::Path::new(&stamp).exists() && std::path::Path::new(&bin).exists() {
         Ok(bin.clone())
     } else {
@@ -1148,16 +1154,47 @@ fn check_proc_volume(ctx: &mut Ctx, bin: &str, n: usize, final_newline: bool, st
 
 // ------------------------------------------------------------------------------------------------
 
+/// key of the case to re-run when `--replay FILE` is given (FILE as written by bin/check)
+pub fn replay_key(ctx: &Ctx) -> Option<String> {
+    let path = ctx.replay.clone()?;
+    let text = std::fs::read_to_string(path).ok()?;
+    let j: serde_json::Value = serde_json::from_str(&text).ok()?;
+    j["case"]["key"].as_str().map(|s| s.to_string()).or_else(|| j["key"].as_str().map(|s| s.to_string()))
+}
+
+/// case indices of this shard; every case is a function of (seed, family, index) alone, so a
+/// replay can re-create it whatever the sharding was
+fn indices(ctx: &Ctx, total: usize, only: &Option<String>, fam: &str) -> Vec<usize> {
+    match only {
+        Some(k) => match k.strip_prefix(&format!("{}:", fam)) {
+            Some(rest) => rest.split(':').next().and_then(|n| n.parse().ok()).into_iter().collect(),
+            None => vec![],
+        },
+        None => (ctx.shard..total).step_by(ctx.nshards).collect(),
+    }
+}
+
+fn case_rng(seed: u64, fam: u64, idx: usize) -> Rng {
+    let mut r = Rng::new(seed.wrapping_mul(0x9E37_79B9).wrapping_add(fam.wrapping_mul(0x1_0000_0001)).wrapping_add(idx as u64 * 0x5851_F42D));
+    r.fork()
+}
+
 pub fn check(ctx: &mut Ctx) {
     let thorough = ctx.thorough();
+    let only = replay_key(ctx);
     // 1. promptness / chunking / model conformance
-    let n_stream = ctx.budget(960, 6000);
-    for i in 0..n_stream {
-        let mut r = ctx.rng.fork();
+    let total = if thorough { 6000 } else { 960 };
+    for g in indices(ctx, total, &only, "stream") {
+        // the line cap is part of the key so that a replay re-creates the same case in any tier
+        let cap = match &only {
+            Some(k) => k.split(':').nth(2).and_then(|c| c.parse().ok()).unwrap_or(14),
+            None => if thorough { 40 } else { 14 },
+        };
+        let mut r = case_rng(ctx.seed, 1, g);
         let nlines = match r.below(10) {
             0 => 0,
             1 => 1,
-            _ => 2 + r.below(if thorough { 40 } else { 14 }),
+            _ => 2 + r.below(cap),
         };
         let final_newline = r.chance(65);
         let c = match stream_case(&mut r, nlines, final_newline) {
@@ -1169,27 +1206,28 @@ pub fn check(ctx: &mut Ctx) {
         };
         let all: Vec<u8> = c.lines.concat();
         let (chunks, style) = chunking(&mut r, &all);
-        let key = format!("{}:{}:{}:{}", ctx.shard, i, style, c.kind);
+        let key = format!("stream:{}:{}", g, cap);
         check_stream(ctx, "stream", &key, &c, &chunks, style, &[]);
     }
     // 2. slow producer: idle gaps longer than the 50 ms receive timeout between chunks
-    let n_slow = if thorough { 6 } else { 2 };
-    for i in 0..n_slow {
-        let mut r = ctx.rng.fork();
+    let total = if thorough { 96 } else { 32 };
+    for g in indices(ctx, total, &only, "slow") {
+        let mut r = case_rng(ctx.seed, 2, g);
         let nl = 4 + r.below(3);
-        if let Some(c) = stream_case(&mut r, nl, i % 2 == 0) {
+        if let Some(c) = stream_case(&mut r, nl, g % 2 == 0) {
             let all: Vec<u8> = c.lines.concat();
             let (chunks, style) = chunking(&mut r, &all);
             let chunks: Vec<Vec<u8>> = if chunks.len() > 12 { c.lines.clone() } else { chunks };
             let gaps: Vec<u64> = chunks.iter().map(|_| 60 + r.below(90) as u64).collect();
-            let key = format!("slow:{}:{}", ctx.shard, i);
+            let key = format!("slow:{}", g);
             check_stream(ctx, "slow-producer", &key, &c, &chunks, style, &gaps);
         }
     }
     // 3. aggregates
-    for i in 0..ctx.budget(96, 800) {
-        let mut r = ctx.rng.fork();
-        check_agg(ctx, &mut r, i * ctx.nshards + ctx.shard);
+    let total = if thorough { 800 } else { 96 };
+    for g in indices(ctx, total, &only, "agg") {
+        let mut r = case_rng(ctx.seed, 3, g);
+        check_agg(ctx, &mut r, g);
     }
     // 4. volume, stalled consumer, binary: one job per shard
     let mut jobs: Vec<(&str, usize, bool, u64)> = vec![
@@ -1210,7 +1248,7 @@ pub fn check(ctx: &mut Ctx) {
         ("bin-vol", 5000, false, 700),
         ("bin-vol", 1001, true, 0),
     ];
-    if thorough {
+    if thorough || only.is_some() {
         jobs.extend_from_slice(&[
             ("vol", 200000, true, 0),
             ("vol", 200000, false, 0),
@@ -1224,10 +1262,25 @@ pub fn check(ctx: &mut Ctx) {
     }
     let mut bin: Option<Result<String, String>> = None;
     for (j, (kind, n, nl, extra)) in jobs.iter().enumerate() {
-        if j % ctx.nshards != ctx.shard {
-            continue;
+        let jkey = match *kind {
+            "vol" => format!("volume:{}:{}", n, nl),
+            "stall" => format!("stalled:{}", n),
+            "bin-paced" => format!("paced:{}ms:{}", extra, n),
+            _ => format!("volume:{}:{}:{}", n, nl, extra),
+        };
+        match &only {
+            Some(k) => {
+                if *k != jkey {
+                    continue;
+                }
+            }
+            None => {
+                if j % ctx.nshards != ctx.shard {
+                    continue;
+                }
+            }
         }
-        let mut r = ctx.rng.fork();
+        let mut r = case_rng(ctx.seed, 4, j);
         match *kind {
             "vol" => check_volume(ctx, *n, *nl, &mut r),
             "stall" => check_stalled(ctx, *n),
